@@ -44,6 +44,7 @@ func runLogger(c Case, tr *Tracer) {
 	}
 	rr := rand.New(rand.NewSource(seedv))
 	sinks := []*bytes.Buffer{nil, {}, {}, {}}
+	loggerSinks = sinks
 	logger.SetLevel(logger.LevelTrace)
 	logger.SetOutput(sinks[1])
 	logger.SetSilentMode(false)
@@ -75,6 +76,10 @@ func runLogger(c Case, tr *Tracer) {
 			b[i] = al[rr.Intn(len(al))]
 		}
 		return string(b)
+	}
+	if st := caseList(c, "steps"); len(st) > 0 {
+		runLoggerSteps(st, tr, wrote)
+		return
 	}
 	ctx := context.Background()
 	sys := logger.SystemLogger()
@@ -108,22 +113,9 @@ func runLogger(c Case, tr *Tracer) {
 			proto := []string{"SMPP", "CMPP", "SMGP", "SMPP"}[rr.Intn(4)]
 			content := []string{"hello", "中文短信", "", "héllo", strings.Repeat("中", 70*256)}[rr.Intn(5)]
 			cands := [][]int{{1}, {1, 3}, {8}, {0, 8}, {}, {1, 8}, {15}}[rr.Intn(7)]
-			var dcs []datacoding.ProtocolDataCoding
-			for _, cd := range cands {
-				dcs = append(dcs, toPDC(proto, cd))
-			}
-			anycan := false
-			if proto == "SMPP" || proto == "CMPP" {
-				for _, cd := range cands {
-					if can, _ := singleCoding(proto, cd, content, 1); can && content != "" {
-						anycan = true
-					}
-				}
-			}
-			ucs2can, _ := singleCoding(proto, 8, content, 1)
-			_, _, err := protocol.NewBatchDataCodingEncoder().Protocol(protocol.Protocol(proto)).Content(content, 1).DataCodings(dcs).Build(ctx)
-			tr.emit(Ev{"ev": "Build", "proto": proto, "cands": cands, "empty": content == "", "anycan": anycan, "ucs2can": ucs2can, "err": err != nil,
-				"wrote": wrote(), "site": "batch.Build/log"})
+			e := buildCall(ctx, proto, content, cands)
+			e["wrote"] = wrote()
+			tr.emit(e)
 		default:
 			who := []string{"def", "sys"}[rr.Intn(2)]
 			style := []string{"plain", "f", "ctx"}[rr.Intn(3)]
@@ -134,36 +126,114 @@ func runLogger(c Case, tr *Tracer) {
 			if hasargs {
 				t = strings.ReplaceAll(t, "%", "")
 			}
-			format, args := t, []interface{}{}
-			if hasargs {
-				format, args = "%s|%d", []interface{}{t, n}
-			}
-			switch {
-			case style == "plain" && who == "def":
-				f := []func(...interface{}){logger.Trace, logger.Debug, logger.Info, logger.Notice, logger.Warn, logger.Error}[lv]
-				if hasargs {
-					f(t, n)
-				} else {
-					f(t)
-				}
-			case style == "plain":
-				f := []func(...interface{}){sys.Trace, sys.Debug, sys.Info, sys.Notice, sys.Warn, sys.Error}[lv]
-				if hasargs {
-					f(t, n)
-				} else {
-					f(t)
-				}
-			case style == "f" && who == "def":
-				[]func(string, ...interface{}){logger.Tracef, logger.Debugf, logger.Infof, logger.Noticef, logger.Warnf, logger.Errorf}[lv](format, args...)
-			case style == "f":
-				[]func(string, ...interface{}){sys.Tracef, sys.Debugf, sys.Infof, sys.Noticef, sys.Warnf, sys.Errorf}[lv](format, args...)
-			case who == "def":
-				[]func(context.Context, string, ...interface{}){logger.CtxTrace, logger.CtxDebug, logger.CtxInfo, logger.CtxNotice, logger.CtxWarn, logger.CtxError}[lv](ctx, format, args...)
-			default:
-				[]func(context.Context, string, ...interface{}){sys.CtxTracef, sys.CtxDebugf, sys.CtxInfof, sys.CtxNoticef, sys.CtxWarnf, sys.CtxErrorf}[lv](ctx, format, args...)
-			}
+			logCall(ctx, who, style, lv, t, hasargs, n)
 			tr.emit(Ev{"ev": "Log", "who": who, "style": style, "lv": lv, "text": scalars(t), "hasargs": hasargs, "n": n, "engine": false, "b": []int{},
 				"wrote": wrote(), "site": "logger." + who + "." + style})
 		}
 	}
 }
+
+func logCall(ctx context.Context, who, style string, lv int, t string, hasargs bool, n int) {
+	sys := logger.SystemLogger()
+	format, args := t, []interface{}{}
+	if hasargs {
+		format, args = "%s|%d", []interface{}{t, n}
+	}
+	switch {
+	case style == "plain" && who == "def":
+		f := []func(...interface{}){logger.Trace, logger.Debug, logger.Info, logger.Notice, logger.Warn, logger.Error}[lv]
+		if hasargs {
+			f(t, n)
+		} else {
+			f(t)
+		}
+	case style == "plain":
+		f := []func(...interface{}){sys.Trace, sys.Debug, sys.Info, sys.Notice, sys.Warn, sys.Error}[lv]
+		if hasargs {
+			f(t, n)
+		} else {
+			f(t)
+		}
+	case style == "f" && who == "def":
+		[]func(string, ...interface{}){logger.Tracef, logger.Debugf, logger.Infof, logger.Noticef, logger.Warnf, logger.Errorf}[lv](format, args...)
+	case style == "f":
+		[]func(string, ...interface{}){sys.Tracef, sys.Debugf, sys.Infof, sys.Noticef, sys.Warnf, sys.Errorf}[lv](format, args...)
+	case who == "def":
+		[]func(context.Context, string, ...interface{}){logger.CtxTrace, logger.CtxDebug, logger.CtxInfo, logger.CtxNotice, logger.CtxWarn, logger.CtxError}[lv](ctx, format, args...)
+	default:
+		[]func(context.Context, string, ...interface{}){sys.CtxTracef, sys.CtxDebugf, sys.CtxInfof, sys.CtxNoticef, sys.CtxWarnf, sys.CtxErrorf}[lv](ctx, format, args...)
+	}
+}
+
+// buildCall runs one Build and describes it the way Trace_Logger wants it (the outcome is derived there)
+func buildCall(ctx context.Context, proto, content string, cands []int) Ev {
+	var dcs []datacoding.ProtocolDataCoding
+	for _, cd := range cands {
+		dcs = append(dcs, toPDC(proto, cd))
+	}
+	anycan := false
+	if proto == "SMPP" || proto == "CMPP" {
+		for _, cd := range cands {
+			if can, _ := singleCoding(proto, cd, content, 1); can && content != "" {
+				anycan = true
+			}
+		}
+	}
+	ucs2can, _ := singleCoding(proto, 8, content, 1)
+	_, _, err := protocol.NewBatchDataCodingEncoder().Protocol(protocol.Protocol(proto)).Content(content, 1).DataCodings(dcs).Build(ctx)
+	return Ev{"ev": "Build", "proto": proto, "cands": cands, "empty": content == "", "anycan": anycan, "ucs2can": ucs2can, "err": err != nil,
+		"site": "batch.Build/log"}
+}
+
+// a walk of Logger.tla (Gen_Logger), step by step on the real loggers
+func runLoggerSteps(steps []map[string]interface{}, tr *Tracer, wrote func() []interface{}) {
+	ctx := context.Background()
+	for _, st := range steps {
+		switch caseStr(st, "a") {
+		case "level":
+			lv := caseInt(st, "lv")
+			logger.SetLevel(logger.Level(lv))
+			tr.emit(Ev{"ev": "SetLevel", "lv": lv, "wrote": wrote(), "site": "logger.SetLevel"})
+		case "output":
+			k := caseInt(st, "k")
+			logger.SetOutput(loggerSinks[k])
+			tr.emit(Ev{"ev": "SetOutput", "k": k, "wrote": wrote(), "site": "logger.SetOutput"})
+		case "silent":
+			b := caseBool(st, "b")
+			logger.SetSilentMode(b)
+			tr.emit(Ev{"ev": "SetSilent", "b": b, "wrote": wrote(), "site": "logger.SetSilentMode"})
+		case "log":
+			who, style, lv, t, ha, n := caseStr(st, "who"), caseStr(st, "style"), caseInt(st, "lv"), string(caseBytes(st, "text")), caseBool(st, "hasargs"), caseInt(st, "n")
+			logCall(ctx, who, style, lv, t, ha, n)
+			tr.emit(Ev{"ev": "Log", "who": who, "style": style, "lv": lv, "text": scalars(t), "hasargs": ha, "n": n, "engine": false, "b": []int{},
+				"wrote": wrote(), "site": "logger." + who + "." + style})
+		case "engine":
+			who, a, b := caseStr(st, "who"), string(caseBytes(st, "text")), string(caseBytes(st, "b"))
+			if who == "def" {
+				logger.Errorf(logger.EngineErrorFormat, a, b)
+			} else {
+				logger.SystemLogger().Errorf(logger.EngineErrorFormat, a, b)
+			}
+			tr.emit(Ev{"ev": "Log", "who": who, "style": "f", "lv": 5, "text": scalars(a), "hasargs": true, "n": 0, "engine": true, "b": scalars(b),
+				"wrote": wrote(), "site": "logger." + who + ".Errorf(engine)"})
+		case "build":
+			var e Ev
+			switch caseStr(st, "kind") {
+			case "ok":
+				e = buildCall(ctx, "SMPP", "hello", []int{1, 8})
+			case "invalid":
+				e = buildCall(ctx, "CMPP", "", []int{8})
+			case "fallback":
+				e = buildCall(ctx, "SMPP", "中文", []int{1, 3})
+			case "fail":
+				e = buildCall(ctx, "SMPP", strings.Repeat("中", 70*256), []int{8, 1})
+			default:
+				e = buildCall(ctx, "SMGP", "hello", []int{1})
+			}
+			e["wrote"] = wrote()
+			tr.emit(e)
+		}
+	}
+}
+
+var loggerSinks []*bytes.Buffer
